@@ -20,6 +20,8 @@ not exist; `M_sound_partial` below is the conjunction of what is proved, each pi
   non-empty, `sort.IsSorted`, adjacent-duplicate scan, range test of the LAST index only) accepts
   exactly what the spec's `is_valid_indexed_attestation` accepts structurally;
 * `slashable_sound` — `IsSlashableAttestationData` accepts only what the spec calls slashable;
+* `attestation_window_sound` — the target-epoch / slot / inclusion-window checks as coded (wrapping sums,
+  phase0 two-sided, deneb one-sided) = the spec's assertions;
 * `domain_separation` — `ComputeDomain`/`ComputeSigningRoot` are injective in (domain type, fork
   version, genesis validators root, object root) up to an explicit (28-byte-truncated) hash collision:
   a signature made for another domain, fork or chain is over a different message;
@@ -57,6 +59,22 @@ example : validateIndexedNoSig { (default : Config) with MAX_VALIDATORS_PER_COMM
 example : validateIndexedNoSig { (default : Config) with MAX_VALIDATORS_PER_COMMITTEE := 2048 } 10 [1, 5, 5] = .ok false := by decide
 example : validateIndexedNoSig { (default : Config) with MAX_VALIDATORS_PER_COMMITTEE := 2048 } 10 [1, 5, 10] = .ok false := by decide
 example : validateIndexedNoSig { (default : Config) with MAX_VALIDATORS_PER_COMMITTEE := 2048 } 10 [] = .ok false := by decide
+
+/-- (h) `attestation_window_sound`: the epoch/slot checks at the head of `ProcessAttestation` as coded
+(`uint64` sums that wrap; phase0/altair two-sided window, deneb one-sided after EIP-7045) pass exactly
+when the spec's assertions on `data.target.epoch` and `data.slot` pass — for every slot, target epoch
+and state slot, provided the state's slot is not within two epochs of `2^64` (where the spec's own
+sums would overflow). In particular a wrapped `data.slot + SLOTS_PER_EPOCH` can never admit an attestation. -/
+theorem attestation_window_sound (cfg : Config) (s : State) (data : AttestationData)
+    (hspe : 0 < cfg.SLOTS_PER_EPOCH) (hmin : cfg.MIN_ATTESTATION_INCLUSION_DELAY ≤ cfg.SLOTS_PER_EPOCH)
+    (hcur : s.slot + 2 * cfg.SLOTS_PER_EPOCH < 2 ^ 64) :
+    attestationTimingOk cfg.SLOTS_PER_EPOCH cfg.MIN_ATTESTATION_INCLUSION_DELAY (decide (s.fork ≥ .deneb)) s.slot data.slot data.target.epoch = true
+      ↔ Block.attestation_timing cfg s data = .ok () :=
+  attestation_window_eq cfg s data hspe hmin hcur
+
+/-- non-vacuity: the last admissible slot (data.slot + SLOTS_PER_EPOCH = state.slot) before deneb, one later only from deneb on -/
+example : attestationTimingOk 8 1 false 17 9 1 = true ∧ attestationTimingOk 8 1 false 18 9 1 = false ∧
+          attestationTimingOk 8 1 true 18 9 1 = true ∧ attestationTimingOk 8 1 true 17 17 2 = false := by decide
 
 /-- (e) soundness direction of `slashable_eq`: what the code calls slashable the spec calls slashable. -/
 theorem slashable_sound (a b : AttestationData) :
